@@ -32,6 +32,22 @@ def run(ctx):
     report(ctx, eng, recs)
     ctx.floor("no-panic", len([r for r in recs if not r.get("trivial")]), 60, "non-trivial panic obligations reachable from process_events")
     ctx.floor("no-panic-reach", len(eng.reach), 50, "crate-local functions reachable from process_events")
+    # "wedge": the worker reads at most batch_size datagrams per readiness event and then returns to poll().  That only drains a backlog if
+    # the kernel keeps signalling while datagrams are pending, i.e. the sources whose handler does a bounded amount of work per event (the
+    # request socket, the health-check listener) are registered level-triggered.  Edge-triggered, a burst larger than a batch leaves
+    # datagrams queued with no further event, and a valid request sent afterwards waits behind them.
+    import server_model as sm
+    regs = sm.registrations(ctx, W)
+    nreg = 0
+    for r in regs:
+        if "UdpSocket" in r["source_ty"] or "TcpListener" in r["source_ty"]:
+            nreg += 1
+            what = "request socket" if "UdpSocket" in r["source_ty"] else "health-check listener"
+            ctx.check("wake-up", "%s/level-triggered" % what.replace(" ", "-"), r["opts"] == ["level"],
+                      "the %s is registered level-triggered: pending input keeps raising events until it is drained" % what,
+                      "the %s is registered with PollOpt::%s, but its handler reads a bounded number of items per event: whatever is still queued after one "
+                      "batch raises no further event, so later valid requests are not answered" % (what, "|".join(r["opts"]) or values.fmt(r["opts_term"])), r["fn"].loc(r["bb"]))
+    ctx.floor("wake-up", nreg, 2, "poll registrations of the request socket and the health-check listener")
     # log macro argument blocks are part of the analysed MIR: count sites inside log expansions
     nlog = 0
     for r in recs:
